@@ -342,6 +342,42 @@ func ruleMERGE1(c *Ctx) {
 		}
 		c.Oblige("array:zero-each-element", f.Pos(), okElem, "array elements are not zeroed before decoding under !MergeWithLegacySemantics")
 	}
+	// ---- [N]byte from a binary string: the tail beyond the decoded bytes is always cleared
+	if f := p.Func("json.makeBytesArshaler:unmarshal"); f == nil {
+		c.Undecide("json.makeBytesArshaler:unmarshal", "closure missing")
+	} else {
+		info := f.Info()
+		found, uncond := false, false
+		for _, call := range findAll[*ast.CallExpr](f.Body()) {
+			if !IsBuiltin(info, call, "clear") {
+				continue
+			}
+			found = true
+			var fl uint64
+			for _, cc := range enclosingConds(p, f, call) {
+				fl |= flagsRead(info, cc.cond)
+				// also: not inside a length-mismatch error branch
+				if be, ok := ast.Unparen(cc.cond).(*ast.BinaryExpr); ok && be.Op == token.LAND {
+					fl |= flagsRead(info, be)
+				}
+			}
+			inErr := false
+			for _, cc := range enclosingConds(p, f, call) {
+				ast.Inspect(cc.cond, func(nd ast.Node) bool {
+					if be, ok := nd.(*ast.BinaryExpr); ok && be.Op == token.NEQ {
+						if c1, ok := ast.Unparen(be.X).(*ast.CallExpr); ok && IsBuiltin(info, c1, "len") {
+							inErr = true
+						}
+					}
+					return true
+				})
+			}
+			if fl == 0 && !inErr {
+				uncond = true
+			}
+		}
+		c.Oblige("bytearray:zero-tail", f.Pos(), found && uncond, "the bytes of a [N]byte beyond the decoded data are not cleared unconditionally (stale bytes of the previous value would survive a shorter input)")
+	}
 	// ---- map
 	if f := p.Func("json.makeMapArshaler:unmarshal"); f == nil {
 		c.Undecide("json.makeMapArshaler:unmarshal", "closure missing")
